@@ -120,7 +120,14 @@ def run(ctx):
     runs.append(("chains", {"MaxLen": 3, "NSlices": 1, "Slice": 0, "Chains": "TRUE", "FirstFromR2": "TRUE"}, None))
     # argument wiring: two-argument options renamed with lists that swap / shift the old names (exhaustive, <=3 rules)
     runs.append(("wiring", {"MaxLen": 3, "NSlices": 1, "Slice": 0, "Wiring": "TRUE", "FirstFromR2": "TRUE"}, None))
+    # layout: options whose arguments and assignments are not in pairs (constants in front, one envelope for several arguments),
+    # rules addressing an argument by index on them, promote on the SOURCE of merge_into / compose, then the merge (exhaustive
+    # <=3 of 10 rules, plus every history option, option, builder, builder)
+    runs.append(("layout", {"MaxLen": 4, "NSlices": 1, "Slice": 0, "Layout": "TRUE", "FirstFromR2": "TRUE"}, None))
     runs.append(("no-option-builder", {"MaxLen": 1, "NSlices": 1, "Slice": 0, "WithMarker": "TRUE", "FirstFromR2": "TRUE"}, None))
+    only = os.environ.get("VERIF_C17_RUNS")       # diagnostics: run the named universes only (the vacuity gates then make the run inconclusive)
+    if only:
+        runs = [r for r in runs if r[0] in only.split(",")]
     tot = {"steps": 0, "matched": 0, "traced": 0, "accepted": 0, "failed": 0, "inherited": 0, "skipped": 0, "rejected": 0,
            "yaml_runs": 0, "yaml_agree": 0, "modelfail": 0}
     per_rule, per_rule_nt, per_rule_drift, per_len, per_sel, other = {}, {}, {}, {}, {}, {}
